@@ -395,7 +395,16 @@ def scn_mesh_data(c, edges, fill='int_fill', si=1):
         e_old = selE.sel(ke)
         enode = tables['edge_node'].val(e_old, bcol)
         c.assume(keepN(zint(enode)))                 # VALID-UGRID-MASK: the nodes of a kept edge are kept
+    mask_before = {k: (v.arr, v.arr.fn, dict(v.attrs), dict(v.encoding)) for k, v in mask._vars.items()}
     out = expect_ok(c, 'apply_clip_mask returns', lambda: method(it, conv, 'apply_clip_mask', mask, work))
+    # frame: applying a mask does not change the mask (it is applied again to the next dataset with the same geometry)
+    for mk_, (arr0, fn0, attrs0, enc0) in mask_before.items():
+        mq = c.fresh_int('mq_' + mk_)
+        c.assume(mq >= 0)
+        c.assume(mq < arr0.shape[0])
+        now = mask._vars[mk_]
+        c.check(f'the clip mask is not modified by applying it ({mk_})',
+                s_and(now.arr is arr0, now.attrs == attrs0, now.encoding == enc0, now.arr.fn((mq,)).same_bits(fn0((mq,)))))
     osizes = out._sizes()
     dim_sel = {'nface': sels['face'][1], 'nnode': sels['node'][1]}
     if has_edges:
